@@ -53,6 +53,19 @@ FIRST_MISSED = {
     'C16-u1': 'bases stdout/streams (repeating producer histories)', 'C16-u3': 'observation through ComponentState/Controller.can_memoize with an in-memory database',
     'C17-u1': 'environments that are defined but empty', 'C17-u3': 'relational oracle: all spellings of one selection behave alike',
     'C18-u1': 'link-chain archives (each link lexically inside, composition escapes)', 'C18-u3': 'links inside copied manifest folders named like files written later',
+    'C01-w1': 'plain consumer of same-named producers in two stages; the reference model\'s producers count as predecessors (not only the product\'s graph)',
+    'C01-w3': 'workflow chain2-zero (repeatInterval 0 on a plain consumer)',
+    'C04-w2': 'caught by C08 (query-mode pass: validate() / primitive / lenient / strict queries interleaved), not by C04',
+    'C04-w3': 'caught by C08 (read-only probes), not by C04',
+    'C05-w1': 'topology reuse-names (same component names in several loop stages)', 'C05-w3': 'every placement of a file on binding / loopBinding / usage',
+    'C06-w2': 'family variables (component variable named like a caller\'s parameter)', 'C06-w3': 'mirrored-location check under compile histories',
+    'C08-w1': 'platform names with non-word characters',
+    'C10-w1': 'family direct-suffix + order-aware known shapes', 'C10-w3': 'contents with CR / other bytes that text-mode reading alters',
+    'C15-w3': 'components naming one producer twice; identified set flowir.expanded_references',
+    'C16-w2': 'missing upstream inputs behind directory references; missing-then-present histories',
+    'C17-w3': 'environment names without cased characters',
+    'C19-w1': 'first evaluation ended in a transient harness error (exit 2); the end-to-end family now loads the package once',
+    'C20-w3': 'part A through legacy (DOSINI) packages with many stages',
     'C19-u1': 'family backendvar + process histories', 'C19-u2': 'families rewrite (same directory) and history (same process)',
 }
 rows = []
